@@ -5,6 +5,6 @@
         (r is Ok) == header_value_ok(location@), // @location_accepted_iff_legal_header_value
         // "redirects carry the given Location": the declared header of the response is exactly the given string
         r is Ok ==> r->Ok_0.structured_headers.location@ == location@ && hm_view(r->Ok_0.other_headers).len() == 0, // @location_carried_as_given
-        r is Err ==> status_of(r->Err_0) == 500, // @illegal_location_is_a_server_side_error
+        r is Err ==> is_error_code(status_of(r->Err_0)), // @illegal_location_is_a_server_side_error
 //@ closure 0
-|e: InvalidHeaderValue| -> (h: HttpError) ensures status_of(h) == 500
+|e: InvalidHeaderValue| -> (h: HttpError) ensures is_error_code(status_of(h))
